@@ -64,6 +64,7 @@ import PS.Proofs.Enum.UUnamb
 import PS.Proofs.Enum.UCompleteRun
 import PS.Proofs.Enum.UOrderCheck
 import PS.Proofs.Enum.UTotalCheck
+import PS.Proofs.Enum.UBucket
 namespace PS.C02HS
 open PS PS.G
 
@@ -710,6 +711,26 @@ example : ∃ k s' out, UHS.take Eu 36 k (UHS.St.empty Gu) [] = some (s', out, t
 /-- with that fuel the machine does stop after its 22 programs (kernel evaluation) -/
 example : (UHS.take Eu 36 30 (UHS.St.empty Gu) []).map (fun r => (r.2.1.length, r.2.2)) = some (22, true) := by
   decide +kernel
+
+/-- **C02 FOR THE UNAMBIGUOUS BUCKET SEARCH** (`BucketSearch` of u_heap_search.py, no filter) on acyclic
+    unambiguous grammars with several start symbols: the instance of `C02_HS_U_full` for bucket tuples
+    (`UHS.rhyp_bucket`: `Bucket.__lt__` is a strict weak order on the tuples of one size, `+=` and
+    `add_prob_uniform` are monotone) — the generator stops and yields every program exactly once -/
+theorem C02_HS_U_bucket_full (E : UHS.Env U UHS.Bucket) (rank : UHS.UNT U → Nat) (size : Nat)
+    (R : RHyp E rank (fun b : UHS.Bucket => b.length = size)) (L Al A : Nat) (T : THyp E L Al A) (d : UHS.UNT U)
+    (fuel : Nat) (hf : FuelOK E rank (L + Al + A + 6) fuel) :
+    ∃ k s' out, UHS.take E fuel k (UHS.St.empty E.G) [] = some (s', out, true) ∧
+      out.Nodup ∧ ∀ p, p ∈ out ↔ PS.U.genU (E.G.toUCFG d) p = true :=
+  C02_HS_U_full E rank _ R L Al A T d fuel hf
+
+theorem Eub_rhyp : RHyp Eub uRank2 (fun b : UHS.Bucket => b.length = 3) :=
+  rhyp_bucket Eub uRank2 3 rfl rfl (by decide) (by decide) (by decide) (by decide) (by decide) (by decide) (by decide)
+    (by decide) (fun _ => rfl)
+
+example : ∃ k s' out, UHS.take Eub 36 k (UHS.St.empty Gu) [] = some (s', out, true) ∧
+    out.Nodup ∧ ∀ p, p ∈ out ↔ PS.U.genU (Gu.toUCFG s0) p = true :=
+  C02_HS_U_bucket_full Eub uRank2 3 Eub_rhyp 2 2 2 (thyp_of_check Eub 2 2 2 (by decide)) s0 36
+    (fuelOK_of_check Eub uRank2 12 36 (by decide))
 end UMachine
 
 end PS.C02HS
